@@ -14,7 +14,7 @@
 //! The data source is a small array-backed `PayloadSource` with 0-2 IPv4
 //! origins (fixed-layout PDUs only; see DESIGN §3 C07 for why the
 //! variable-length PDUs are out of reach).
-//! @jobs 4 @mem_gb 8 @quick_timeout 600 @thorough_timeout 3600 @thorough_mem_gb 24 @thorough_jobs 2
+//! @jobs 4 @mem_gb 8 @quick_timeout 600 @thorough_timeout 3600 @thorough_mem_gb 40 @thorough_jobs 1
 use crate::util::*;
 use rpki::resources::addr::{MaxLenPrefix, Prefix};
 use rpki::resources::asn::Asn;
@@ -311,7 +311,7 @@ fn recv_body_x(pdu_type: Option<u8>, fragment: bool, max_pending: u8,
     std::mem::forget(conn);
 }
 
-/// @tier thorough
+/// @tier off
 /// @fn rpki::rtr::server::Connection::recv rpki::rtr::server::Connection::check_version
 ///   rpki::rtr::server::Connection::check_length rpki::rtr::pdu::Header::read
 ///   rpki::rtr::pdu::SerialQueryPayload::read rpki::rtr::pdu::Error::new
@@ -343,7 +343,7 @@ fn recv_serial_query_unfragmented() { recv_body_x(Some(1), false, 0, 1); }
 #[kani::unwind(3)]
 fn recv_reset_query_unfragmented() { recv_body_x(Some(2), false, 0, 1); }
 
-/// @tier thorough
+/// @tier off
 /// @fn rpki::rtr::server::Connection::recv rpki::rtr::server::Connection::check_version
 /// @bounds as recv_serial_query_unfragmented with every PDU type other than
 ///   1 and 2 (type 10 in its own case)
@@ -614,7 +614,7 @@ fn respond_reset_body(max_n: usize) {
     std::mem::forget(conn);
 }
 
-/// @tier thorough
+/// @tier off
 /// @fn rpki::rtr::server::Connection::reset rpki::rtr::pdu::CacheResponse::write
 ///   rpki::rtr::pdu::EndOfData::new rpki::rtr::pdu::Error::new
 /// @bounds empty source, arbitrary readiness / session / serial / timing,
@@ -627,7 +627,7 @@ fn respond_reset_body(max_n: usize) {
 #[kani::unwind(3)]
 fn respond_reset_0() { respond_reset_body(0) }
 
-/// @tier thorough
+/// @tier off
 /// @fn rpki::rtr::server::Connection::reset rpki::rtr::pdu::Payload::new_if_supported
 /// @bounds as respond_reset_0 with 0..=2 arbitrary IPv4 origins; unwind 4
 /// @says every origin of the source appears exactly once, as an announcement,
@@ -673,7 +673,7 @@ fn respond_serial_body(max_n: usize) {
     std::mem::forget(conn);
 }
 
-/// @tier thorough
+/// @tier off
 /// @fn rpki::rtr::server::Connection::serial rpki::rtr::pdu::CacheReset::write
 /// @bounds as respond_reset_0 plus an arbitrary client state and an arbitrary
 ///   "diff available" answer of the source
@@ -683,7 +683,7 @@ fn respond_serial_body(max_n: usize) {
 #[kani::unwind(3)]
 fn respond_serial_0() { respond_serial_body(0) }
 
-/// @tier thorough
+/// @tier off
 /// @fn rpki::rtr::server::Connection::serial rpki::rtr::pdu::Payload::new_if_supported
 /// @bounds as respond_serial_0 with 0..=2 arbitrary IPv4 origins and actions
 /// @says every diff item appears once with its own action flag, in order
